@@ -24,10 +24,9 @@ def main():
     mod = importlib.import_module(f"vf.props.{prop.lower()}")
     cases = json.load(open(fin))
     fd = os.open(fout, os.O_WRONLY | os.O_CREAT | os.O_APPEND)
-    for case in cases:
-        t0 = time.time()
+    def run(case):
         try:
-            rec = mod.run_case(case)
+            return mod.run_case(case)
         except target.TargetError as e:
             # the code under test raised where the property says it must produce a result
             handler = getattr(mod, "on_target_error", None)
@@ -35,8 +34,29 @@ def main():
             if rec is None:
                 rec = {"status": "violation", "kind": "target-exception",
                        "detail": f"mdpax raised {e.kind}: {e.msg[:500]} (during {e.where})"}
+            return rec
         except Exception:
-            rec = {"status": "error", "detail": traceback.format_exc()[-1500:]}
+            return {"status": "error", "detail": traceback.format_exc()[-1500:]}
+
+    every = int(getattr(mod, "SIBLING_EVERY", 0))
+    for case in cases:
+        t0 = time.time()
+        rec = run(case)
+        if (every and case["case_id"] % every == 0 and rec.get("status") == "ok"
+                and case.get("kind", "gen") == "gen" and "spec" in case):
+            # a second problem + solver of the SAME shapes and problem name but other contents, built in the same
+            # process straight after the first: state shared between instances (caches keyed by shape or name) shows here
+            from vf import common
+
+            rec2 = run(common.sibling_case(case))
+            if rec2.get("status") in ("violation", "error"):
+                if "detail" in rec2:
+                    rec2["detail"] = "[second problem/solver of the same shapes built in this process] " + str(rec2["detail"])
+                rec = rec2
+            else:
+                rec["sibling"] = rec2.get("status")
+                if rec2.get("status") == "ok" and isinstance(rec.get("n_obs"), int) and isinstance(rec2.get("n_obs"), int):
+                    rec["n_obs"] += rec2["n_obs"]
         rec["case_id"] = case["case_id"]
         rec["t"] = round(time.time() - t0, 3)
         os.write(fd, (json.dumps(rec, default=_default) + "\n").encode())
